@@ -37,7 +37,7 @@ ASSUMPTIONS = [
     'alerts (make_alerter) are replaced by a counter; not part of the claim',
 ]
 TRUSTED = ['pbt/appmon.py (MiniZk, Clock, Model)']
-BUDGET = {'quick': 1600, 'thorough': 160000}
+BUDGET = {'quick': 8000, 'thorough': 160000}
 
 
 def strategy(tier):
